@@ -48,4 +48,35 @@ Lemma MIN_eq c a b s : run_concrete F r32 (PMin c a b) s = run_generic F r32 (PM
 Proof. reflexivity. Qed.
 Lemma MAX_eq c a b s : run_concrete F r32 (PMax c a b) s = run_generic F r32 (PMax c a b) s.
 Proof. reflexivity. Qed.
+Lemma LOGADD_eq c a b t s : run_concrete F r32 (PLogAdd c a b t) s = run_generic F r32 (PLogAdd c a b t) s.
+Proof.
+  cbn. unfold LOGADD, do_logadd, GREATER, getk. cbn [rd].
+  destruct (fltb F (rndk r32 (rk (s a)) (rval (s b))) (rndk r32 (rk (s a)) (rval (s a)))); reflexivity.
+Qed.
+Lemma LOGSUB_eq c a b t s : run_concrete F r32 (PLogSub c a b t) s = run_generic F r32 (PLogSub c a b t) s.
+Proof. reflexivity. Qed.
+
+(* every pair but Abs/ABS *)
+Definition not_abs (p : spair) : Prop := match p with PAbs _ _ => False | _ => True end.
+Lemma scalar_pairs_agree p s : not_abs p -> run_concrete F r32 p s = run_generic F r32 p s.
+Proof.
+  destruct p; intros H; try contradiction.
+  - apply NEG_eq. - apply ADD_eq. - apply SUB_eq. - apply MUL_eq. - apply DIV_eq. - apply POW_eq.
+  - apply SQRT_eq. - apply EXP_eq. - apply LOG_eq. - apply LOG1P_eq. - apply MIN_eq. - apply MAX_eq.
+  - apply SETp_eq. - apply LOGADD_eq. - apply LOGSUB_eq.
+Qed.
+Lemma scalar_predicates_agree p eps s : pred_concrete F r32 p eps s = pred_generic F r32 p eps s.
+Proof. destruct p; reflexivity. Qed.
+
+(* ABS agrees with Abs exactly when the receiver's old sign happens to select the branch the operand's
+   sign selects: receiver negative and operand negative, or receiver non-negative and operand positive *)
+Lemma ABS_agrees_when c a s :
+  (g_sign F r32 s c = (-1)%Z /\ sign_of F (rval (s a)) = (-1)%Z) \/
+  (g_sign F r32 s c <> (-1)%Z /\ sign_of F (rval (s a)) = 1%Z) ->
+  run_concrete F r32 (PAbs c a) s = run_generic F r32 (PAbs c a) s.
+Proof.
+  cbn. unfold ABS, do_abs. cbn [rd]. intros [[H1 H2]|[H1 H2]]; rewrite H2; cbn.
+  - rewrite H1. reflexivity.
+  - destruct (Z.eqb (g_sign F r32 s c) (-1)) eqn:E; [apply Z.eqb_eq in E; contradiction|reflexivity].
+Qed.
 End P.
